@@ -2,6 +2,7 @@
 Theorems: Properties/C10.v (Model/Env.v vars_seen, Model/Cli.v targets_of/task_args, Model/TaskRun.v NoStart).
 Correspondence: the taskctl binary on generated projects."""
 import itertools
+import re
 import json
 import os
 import vlib
@@ -176,10 +177,9 @@ def run(ctx):
                 vv = vv or v
                 return "[(1, %d)]" % I(vv[lv]) if lv in vv else "[]"
             seen = {}
-            for l in lines:
-                if l.startswith("v=") and " st=" in l:
-                    val, st = l[2:].split(" st=", 1)
-                    seen["direct" if st in ("<no value>", "") else st] = val
+            # by pattern, not by line: parallel stages appending at the same moment can glue their lines together
+            for val, st in re.findall(r"v=([A-Za-z-]*) st=(s1|s2|<no value>|direct)", r["files"].get("out") or ""):
+                seen["direct" if st in ("<no value>", "") else st] = val
             parts = []
             for st in ("s1", "s2", "direct"):
                 V = "(mkVarL [(2, 1); (3, 1)] [] %s %s [(4, 1); (5, 1)] %s %s)" % (am2("cfg"), am2("set"), am2("task"), "[(1, %d)]" % I("stage-val") if st == "s1" else "[]")
